@@ -960,6 +960,10 @@ class Builder:
             )
             if_start.append(branch)
             commands = if_start
+
+            # Inactivate the temporary registers
+            for reg in temp_regs_to_remove:
+                self._mem_mgr.remove_active_register(reg)
         else:
             assert False, "not supported"
         return commands  # type: ignore
@@ -1064,6 +1068,7 @@ class Builder:
             context=context,
             loop_register=loop_register,
         )
+        self._mem_mgr.remove_active_register(loop_register)
 
     def _build_cmds_breakpoint(
         self, action: BreakpointAction, role: BreakpointRole = BreakpointRole.CREATE
